@@ -38,11 +38,12 @@ untouched tree, showing the property violation concretely. Put it somewhere it c
 ## Deliverables (write these files)
 
 - `/tmp/seed/{i}.out/patch.diff` : `git diff` of the source change ONLY (no demo files), applicable with `git apply` at the repository root.
-- `/tmp/seed/{i}.out/demo/...` : the demonstration file(s), plus `/tmp/seed/{i}.out/demo/RUN.md` saying where to copy them and the exact command to run.
+- `/tmp/seed/{i}.out/demo/...` : the demonstration file(s), plus `/tmp/seed/{i}.out/demo/RUN.md` saying where to copy them and the exact command to run (absolute paths, no placeholders; each shell command on its own line indented by four spaces; do not include the commands that revert or re-apply the patch).
 - `/tmp/seed/{i}.out/meta.json` : {{"property": "{pid}", "summary": "...what the change does...", "needs": "...what specific condition makes it manifest...", "files": [...], "suite": "the test-suite result you observed with the change", "demo_with": "demo result with change", "demo_without": "demo result without change"}}
 
 Verify all of it yourself before finishing: suite passes with the change (except the one pre-existing failure), demo fails with it, demo passes
 after `git stash`/reverting the source change. Leave the worktree with your change applied. Keep your final answer short: the summary, what it needs to manifest, and the verification results.
+Note: the machine is shared; the tests TestReadLargeDictObject and TestReadLargeDictObjectStream in pkg/pdfcpu have a 10 s wall-clock deadline and may fail under load on the untouched tree too - re-run them alone before counting them; the packages pkg/api/test and pkg/cli/test abort in TestMain on the untouched tree too (empty font fixtures) - ignore them.
 If your first idea is caught by the existing tests, pick a different one - the existing suite is large (4400 tests) and catches many obvious changes.
 """)
     print(i)
